@@ -387,19 +387,24 @@ class Model:
         return 'unknown', []
 
     # ------------------------------------------------------------ call graph
-    def callees(self, f):
-        """All in-package FuncInfo that f may call (CHA), including bound
-        methods passed as values to start_background_task / partial / on."""
-        if f in self._call_cache:
-            return self._call_cache[f]
+    def callees(self, f, values=False):
+        """In-package FuncInfo that f calls directly (CHA).  With
+        values=True also the bound methods / nested functions it passes as
+        values (start_background_task targets, partial, eio.on handlers):
+        those run later or elsewhere, not inline."""
+        key = (f, values)
+        if key in self._call_cache:
+            return self._call_cache[key]
         out = []
-        self._call_cache[f] = out
+        self._call_cache[key] = out
         for n in self._walk_own(f.node):
             if isinstance(n, ast.Call):
                 kind, tg = self.resolve_call(f, n)
                 for t in tg:
                     if t not in out:
                         out.append(t)
+                if not values:
+                    continue
                 for a in list(n.args) + [k.value for k in n.keywords]:
                     if isinstance(a, ast.Attribute):
                         classes = self.receiver_classes(f, a.value)
@@ -426,12 +431,12 @@ class Model:
                 continue
             stack.extend(ast.iter_child_nodes(n))
 
-    def reachable(self, f, limit=None):
+    def reachable(self, f, values=False):
         seen = [f]
         work = [f]
         while work:
             g = work.pop()
-            for t in self.callees(g):
+            for t in self.callees(g, values):
                 if t not in seen:
                     seen.append(t)
                     work.append(t)
